@@ -210,6 +210,8 @@ class SLock:
             raise RuntimeError("main thread would block on %s held by T%s" % (self.role, self.owner))
         self.owner = me
         self.count += 1
+        if self.count == 1:
+            log_event("acq", self.role)
         return True
 
     def release(self):
@@ -219,6 +221,7 @@ class SLock:
         self.count -= 1
         if self.count == 0:
             self.owner = None
+            log_event("rel", self.role)
         s = self._s()
         if s is not None and me != "main" and not s.aborted:
             s.point("rel", self.role)
@@ -233,6 +236,12 @@ class SLock:
 
 
 _current = [None]
+EVENT_LOG = [None]       # when a list: lock transitions and hooked events of unscheduled (main-thread) runs
+
+
+def log_event(kind, info=None):
+    if EVENT_LOG[0] is not None:
+        EVENT_LOG[0].append((kind, info))
 
 
 def current_sched():
@@ -307,6 +316,8 @@ def install_event_hooks(ns):
             s = current_sched()
             if s is not None:
                 s.point(kind, info_fn(self) if info_fn else None)
+            else:
+                log_event(kind, info_fn(self) if info_fn else None)
             r = raw(self, *a, **kw)
             if after and s is not None:
                 s.point(kind + "/done", info_fn(self) if info_fn else None)
